@@ -11,11 +11,13 @@ import (
 	"github.com/wollac/iota-crypto-demo/pkg/ed25519"
 	"pgregory.net/rapid"
 
+	"verifharness/fc"
 	"verifharness/h"
 	"verifharness/ref/ed"
 )
 
 func TestMain(m *testing.M) {
+	h.FirstCallsChild(fc.Ed25519()) // never returns in a first-call child process
 	if err := ed.SelfCheck(); err != nil {
 		fmt.Println("VERIF-INFRA reference self-check failed:", err)
 		panic(err)
@@ -520,3 +522,6 @@ func FuzzVerify(f *testing.F) {
 func FuzzGenVerify(f *testing.F) {
 	h.FuzzSub(f, h.Sub[sigCase]{Prop: "C01", Name: "verify", Gen: genVerify, Check: checkVerify})
 }
+
+// which public entry point is called first in a process (and by how many goroutines at once)
+func TestFirstCalls(t *testing.T) { h.FirstCallsSub(t, "C01", fc.Ed25519(), 6) }
